@@ -331,11 +331,79 @@ class Analysis:
                 if s['dst']['p'] and s['dst']['l'] not in apath and any(p['l'] in whole for p in fn.stmt_sources(s)):
                     return 'sens', 'stored unsorted into a field at %s' % fn.where(s), None
         if sort_blocks:
+            for sb in sorted(sort_blocks):
+                okc, whyc = self.sort_is_total(fn, fn.call_at[sb])
+                if not okc:
+                    return 'sens', 'sorted by %s at %s, but %s: elements that compare equal keep their hash order' % (
+                        fn.call_at[sb].short, fn.call_at[sb].where(), whyc), None
             return 'ok', 'sorted (%s) before any order-observing use' % ', '.join(
                 sorted({fn.call_at[b].short + '@' + str(fn.call_at[b].line) for b in sort_blocks})), None
         if iter_calls:
             return 'ok', 'only iterated (the iteration is analysed as a hash-ordered loop / chain)', None
         return 'ok', 'never observed in order (only len/contains/drop)', None
+
+    # element types whose Ord is total and whose equal values are indistinguishable in output
+    TOTAL_ELEM = re.compile(r'^&*(u8|u16|u32|u64|u128|usize|i8|i16|i32|i64|i128|isize|bool|char|std::string::String|str|time::Date)$')
+    # accessor that identifies an element of the given type uniquely (used by comparators)
+    IDENTITY = [(re.compile(r'portfolio::model::affiliate::Affiliate'), {'id'}),
+                (re.compile(r'peripheral::broker::broker_tx::Account'), {'account_str'})]
+
+    def _elem_type(self, ty):
+        m = re.search(r'(?:std::vec::Vec<|\[)(.*?)(?:, std::alloc::Global>|>|\])$', ty.replace('&mut ', '').lstrip('&'))
+        return m.group(1) if m else ty
+
+    def sort_is_total(self, fn, c):
+        """does the sort order every pair of distinguishable elements? (otherwise ties keep the incoming hash order)"""
+        recv_ty = fn.ty.get(c.arg_local(0), '')
+        elem = self._elem_type(recv_ty)
+        if c.short in ITERTOOLS_SORTED and c.short == 'sorted':
+            return True, 'itertools sorted by Ord'
+        if c.short in ('sort', 'sort_unstable', 'sorted', 'sorted_unstable'):
+            parts = [p.strip() for p in elem.strip('()').split(',')] if elem.startswith('(') else [elem]
+            if all(self.TOTAL_ELEM.match(p) for p in parts if p):
+                return True, 'natural order of %s' % elem
+            return False, 'the natural order of %s is not known to distinguish all elements' % elem[:60]
+        if len(c.args) < 2:
+            return False, 'comparator not found'
+        cl = op_local(c.args[1])
+        g = None
+        for (b2, i2, k2, n2) in fn.defs.get(cl, []) if cl is not None else []:
+            if k2 == 'stmt' and n2['r']['rv'] == 'agg' and n2['r']['kind'].startswith('closure:'):
+                g = self.prog.by_crate[fn.crate].get(n2['r']['kind'][len('closure:'):])
+        if g is None:
+            return False, 'comparator is not a closure literal'
+        ident = set()
+        for rx, acc in self.IDENTITY:
+            if rx.search(elem) or any(rx.search(t) for t in [g.ty.get(2, ''), g.ty.get(3, '')]):
+                ident |= acc
+        by_key = c.short.endswith('by_key') or c.short.endswith('cached_key')
+        if by_key:
+            kty = g.ty.get(0, '')
+            if kty in ('bool', '()') or kty.startswith('std::cmp::Ordering'):
+                return False, 'the sort key has type %s, which cannot tell more than two elements apart' % kty
+            org = mir.provenance(g, 0, follow_all_call_args=True)
+            accs = {x.short for x in org.calls if self.prog.resolve(x.callee, g.crate) is not None}
+            fields = {f for (of, f) in org.fields if of == ''}
+            if (accs and accs <= ident) or (not accs and (self.TOTAL_ELEM.match(kty.lstrip('&')) or fields <= {'0'} and fields)):
+                return True, 'key %s' % (sorted(accs) or kty)
+            return False, 'the sort key (%s via %s) is not known to identify an element' % (kty[:40], sorted(accs))
+        # sort_by(|a, b| ...): the comparison must compare an identifying projection of a with the same projection of b
+        cmps = [x for x in g.calls if x.decl.endswith('::cmp') or x.decl.endswith('::partial_cmp')]
+        if not cmps:
+            return False, 'the comparator closure contains no cmp/partial_cmp call'
+        for x in cmps:
+            oa = mir.provenance(g, x.args[0], follow_all_call_args=True)
+            ob = mir.provenance(g, x.args[1], follow_all_call_args=True)
+            accs = {y.short for y in oa.calls + ob.calls if self.prog.resolve(y.callee, g.crate) is not None}
+            fa = {f for (of, f) in oa.fields if of == ''}
+            fb = {f for (of, f) in ob.fields if of == ''}
+            if accs and not accs <= ident:
+                return False, 'the comparator orders by %s(), which is not known to identify an element' % sorted(accs - ident)
+            if not accs and (fa or fb) and not (fa == fb == {'0'}):
+                return False, 'the comparator compares tuple fields %s/%s' % (sorted(fa), sorted(fb))
+            if not accs and not fa and not self.TOTAL_ELEM.match(elem.lstrip('&')) and not ident:
+                return False, 'the comparator compares whole elements of type %s' % elem[:40]
+        return True, 'comparator on %s' % (sorted(ident) or 'the key field')
 
     # ------------------------------------------------------------------ loops
     def classify_loop(self, fn, header, body, next_call):
@@ -453,23 +521,16 @@ class Analysis:
         exits = [(a, b) for (a, b) in exits if not (fn.blocks[b]['term'] and fn.blocks[b]['term']['t'] == 'Unreachable'
                                                     or (fn.blocks[b]['term'] and fn.blocks[b]['term']['t'] == 'unreachable'))]
 
-        def discr_of_next(t):
-            org = mir.provenance(fn, t['discr'])
-            return next_call in org.calls or next_call.dst['l'] in org.locals
-
         for (src, dst) in exits:
             blk = fn.blocks[src]
             t = blk['term']
             if t and t['t'] == 'falseEdge' and len(fn.pred[src]) == 1:
                 pt = fn.blocks[fn.pred[src][0]]['term']
-                if pt and pt['t'] == 'switch' and discr_of_next(pt):
+                if pt and pt['t'] == 'switch' and fn._is_discr_of(pt['discr'], next_call.dst['l']):
                     normal.add((src, dst))
                 continue
-            if t and t['t'] == 'switch' and fn.dominates(next_call.bb, src):
-                # discriminant derived from next() result?
-                org = mir.provenance(fn, t['discr'])
-                if next_call in org.calls or next_call.dst['l'] in org.locals:
-                    normal.add((src, dst))
+            if t and t['t'] == 'switch' and fn._is_discr_of(t['discr'], next_call.dst['l']):
+                normal.add((src, dst))
         extra = [e for e in exits if e not in normal]
         # an extra exit is harmless if it leaves through a block chain that only builds a constant/unit value; we do not
         # try to prove that: report
